@@ -400,7 +400,7 @@ class C10(PropertyCheck):
         "QipVerif.C10.export_den",
         "QipVerif.C10.export_den_G",
         "QipVerif.C10.roundtrip_den_partial",
-        "QipVerif.C10.roundtrip_den_defs_partial",
+        "QipVerif.C10.roundtrip_den",
         "QipVerif.C10.base_names_are_qelib1",
         "QipVerif.C10.export_measure_counterexample",
         "QipVerif.C10.export_exponent_counterexample",
